@@ -215,6 +215,22 @@ def cli_sentinel(repo, res):
                 eff = const_value(d)
             except ValueError:
                 eff = "<non-literal>"
+                # default taken from the option table (e.g. default=opt_val): evaluate it per option
+                tgt = loops[0].target
+                if isinstance(d, ast.Name) and isinstance(tgt, ast.Tuple) and len(tgt.elts) == 2 and isinstance(tgt.elts[1], ast.Tuple):
+                    names = [getattr(e, "id", None) for e in tgt.elts[1].elts]
+                    if d.id in names:
+                        pos = names.index(d.id)
+                        try:
+                            tab = repo.mod(OPTIONS).assign("FFCX_DEFAULT_OPTIONS")
+                            vals = {const_value(k): (const_value(v.elts[pos]) if not isinstance(v.elts[pos], (ast.Name, ast.Attribute)) else "<type>") for k, v in zip(tab.keys, tab.values)}
+                        except Exception as e:
+                            raise AnalysisError(f"CLI-SENTINEL: cannot evaluate default `{ast.unparse(d)}`: {e}")
+                        offenders = sorted(k for k, v in vals.items() if v is not sentinel)
+                        if offenders:
+                            eff = f"the table value of each option (e.g. {offenders[0]}={vals[offenders[0]]!r})"
+                if eff == "<non-literal>":
+                    raise AnalysisError(f"CLI-SENTINEL: default `{ast.unparse(d)}` of an option argument cannot be evaluated")
         elif action == "store_true":
             eff = False
         elif action == "store_false":
@@ -225,7 +241,7 @@ def cli_sentinel(repo, res):
             eff = None
         key = f"{MAIN}:option-argument:{action or 'store'}"
         res.ob(key)
-        if eff is not sentinel and eff != "<non-literal>":
+        if eff is not sentinel:
             res.fail(key, f"option arguments with action={action!r} default to {eff!r} but main() only drops values that are "
                      f"{sentinel!r}: an option the user did not pass still overrides ffcx_options.json "
                      "(e.g. {\"sum_factorization\": true} in the JSON file is reset to False)", m.line(c))
